@@ -243,7 +243,11 @@ class Block(typing.Generic[C]):
 
                 try:
                     await waiter
-                except Exception:
+                except BaseException:
+                    # NB: this includes CancelledError.  A task that is
+                    # cancelled after release() has already completed its
+                    # waiter must pass the wake-up on, or the connection
+                    # stays idle on the stack with waiters still queued.
                     if not waiter.done():
                         waiter.cancel()
                     try:
